@@ -206,6 +206,16 @@ class C02Update:
         if not (np.all(np.isfinite(w)) and np.all(np.isfinite(np.asarray(scale, dtype=float)))):
             return []  # overflow range: outside the property's quantifier
         rel = np.asarray(d / np.maximum(scale, np.longdouble(1e-300)), dtype=float)
+        # a site has a solution iff the discriminant is non-negative AND the '+' root is non-negative,
+        # i.e. (2c+1) + sqrt(D) > 0 (for w = 0 the root is 0)
+        with np.errstate(all="ignore"):
+            den = np.asarray(b + np.sqrt(np.maximum(d, 0)), dtype=float)
+        w2_ = np.abs(w) ** 2
+        den_scale = np.abs(np.asarray(b, dtype=float)) + np.sqrt(np.abs(np.asarray(d, dtype=float))) + 1e-300
+        den_rel = den / den_scale
+        has_w = (w2_ > 0) & (rel >= -self.DEAD)
+        rel = np.where(has_w & (den_rel < -self.DEAD), -1.0, rel)  # only negative roots: no solution
+        rel = np.where(has_w & (np.abs(den_rel) <= self.DEAD), 0.0, rel)  # dead band: either answer
         self.calls += 1
         V = []
         where = dict(step=rec["step"], stage=rec["stage"], gamma=gamma, dt=dt)
